@@ -442,3 +442,94 @@ def recording_callee(src_root, relpath, qualname, result=None, skip_self=False, 
             q.ghost = dict(q.ghost, calls=list(q.ghost.get('calls', [])) + [rec])
             yield q, (result(bound, x, q) if result else Val('callres', x=rec))
     return h
+
+
+# ------------------------------------------------------------------ 'map': string-keyed mapping (STIX object, kwargs, dict) with declared fields
+def mk_map(name, fields, open_keys=True):
+    """fields: literal key -> sort.  Each declared key has a presence flag and a value; with open_keys the map may also hold
+    other (undeclared) keys, described only by a symbolic key set."""
+    pres = {k: z3.Bool(f'{name}.has_{k}') for k in fields}
+    vals = {k: E.named(s, f'{name}.{k}') for k, s in fields.items()}
+    other = z3.Const(f'{name}.other_keys', E.SetS) if open_keys else EMPTY
+    return map_val(pres, vals, other, dict(fields))
+
+
+def map_val(pres, vals, other, sorts):
+    def present(k):
+        if isinstance(k, str):
+            return pres[k] if k in pres else other[z3.StringVal(k)]
+        t = other[k]
+        for name, pr in pres.items(): t = z3.If(k == z3.StringVal(name), pr, t)
+        return t
+
+    def value(k):
+        if k in vals: return vals[k]
+        return Val('opaque', x=f'map[{k}]')
+    return Val('map', x={'present': present, 'value': value, 'sort': lambda k: sorts.get(k, 'opaque'), 'pres': pres, 'vals': vals, 'other': other, 'sorts': sorts})
+
+
+def map_store(m, key, v):
+    """m[key] = v for a literal key (value semantics: returns the new map)"""
+    pres = dict(m.x['pres']); vals = dict(m.x['vals']); sorts = dict(m.x['sorts'])
+    pres[key] = z3.BoolVal(True); vals[key] = v; sorts[key] = v.sort
+    return map_val(pres, vals, m.x['other'], sorts)
+
+
+def map_update(m, other):
+    """m.update(other): other's keys win"""
+    pres = dict(m.x['pres']); vals = dict(m.x['vals']); sorts = dict(m.x['sorts'])
+    for k in set(pres) | set(other.x['pres']):
+        op = other.x['present'](k); ov = other.x['value'](k)
+        mp = m.x['present'](k); mv = m.x['value'](k)
+        pres[k] = z3.Or(mp, op)
+        if k in other.x['pres'] and k in m.x['pres'] and ov.sort == mv.sort and ov.sort in ('int', 'bool', 'str', 'dt'):
+            vals[k] = Val(ov.sort, z3.If(op, ov.t, mv.t))
+        elif k in other.x['pres'] and k not in m.x['pres']:
+            vals[k] = ov if z3.is_true(z3.simplify(op)) else Val('cond', x=(op, ov, mv))
+        elif k in other.x['pres']:
+            vals[k] = ov if z3.is_true(z3.simplify(op)) else (mv if z3.is_false(z3.simplify(op)) else Val('cond', x=(op, ov, mv)))
+        sorts[k] = vals[k].sort
+    u = z3.FreshConst(S, 'u')
+    return map_val(pres, vals, z3.Lambda([u], z3.Or(m.x['other'][u], other.x['other'][u])), sorts)
+
+
+def _contains_map(x, c, item, p, site):
+    yield p, Bool(c.x['present'](item.t.as_string() if z3.is_string_value(item.t) else item.t))
+
+
+REG.contains[('map', 'str')] = _contains_map
+
+
+@method('.keys', 'map')
+def m_map_keys(x, recv, args, e, p, site):
+    yield p, Val('mapkeys', x=recv)
+
+
+def _cmp_mapkeys(x, op, a, b, p, site):
+    """data.keys() >= {literal set}: every literal is present"""
+    if isinstance(op, ast.GtE) and b.sort == 'const' and isinstance(b.x, (set, frozenset)):
+        yield p, Bool(z3.And(*[a.x.x['present'](k) for k in sorted(b.x)])); return
+    raise Unsupported(site + ' mapkeys compare')
+
+
+REG.compare[('mapkeys', 'const')] = _cmp_mapkeys
+
+
+def slice_str(x, o, sl, p, site):
+    """s[a:b] with integer-constant (possibly negative / missing) bounds, exact"""
+    def const(n):
+        if n is None: return None
+        if isinstance(n, ast.Constant) and isinstance(n.value, int): return n.value
+        if isinstance(n, ast.UnaryOp) and isinstance(n.op, ast.USub) and isinstance(n.operand, ast.Constant): return -n.operand.value
+        raise Unsupported(site + ' slice bound')
+    if sl.step is not None: raise Unsupported(site + ' slice step')
+    lo, hi = const(sl.lower), const(sl.upper); n = z3.Length(o.t)
+    def norm(b, default):
+        if b is None: return default
+        if b >= 0: return z3.If(n < b, n, z3.IntVal(b))
+        return z3.If(n + b < 0, z3.IntVal(0), n + b)
+    a, b = norm(lo, z3.IntVal(0)), norm(hi, n)
+    yield p, Str(z3.If(b > a, z3.SubString(o.t, a, b - a), z3.StringVal('')))
+
+
+REG.slices['str'] = slice_str
